@@ -13,6 +13,9 @@ import (
 var VerifHookChain func() error
 
 func verifyRequestSignatures[B neofscrypto.ProtoMessage](req neofscrypto.SignedRequest[B], verifyN3 func(data, invocScript, verifScript []byte) error) error {
+	if err, done := verifyRequestSignaturesN3hooked(verifyN3); done {
+		return err
+	}
 	if h := VerifHookChain; h != nil {
 		if err := h(); err != nil {
 			var st apistatus.SignatureVerification
@@ -22,4 +25,22 @@ func verifyRequestSignatures[B neofscrypto.ProtoMessage](req neofscrypto.SignedR
 		return nil
 	}
 	return verifyRequestSignatures__real(req, verifyN3)
+}
+
+// VerifHookChainN3, when set, models the SDK's walk over the signed parts of a
+// request whose signatures use the N3 scheme: it receives the node's witness
+// callback and returns the verdict of the walk.
+var VerifHookChainN3 func(verifyN3 func(data, invocScript, verifScript []byte) error) error
+
+func verifyRequestSignaturesN3hooked(verifyN3 func(data, invocScript, verifScript []byte) error) (error, bool) {
+	h := VerifHookChainN3
+	if h == nil || verifyN3 == nil {
+		return nil, false
+	}
+	if err := h(verifyN3); err != nil {
+		var st apistatus.SignatureVerification
+		st.SetMessage(err.Error())
+		return st, true
+	}
+	return nil, true
 }
